@@ -147,3 +147,51 @@ class CustomLoader(plumpy.DefaultObjectLoader):
         if obj is OutProc:
             return ALIAS_PREFIX + 'Out'
         return super().identify_object(obj)
+
+
+# ---- reference tables used by the monitors of harness/props/c17.py (independent of the Lean model) -------------------
+# user step executed in each `Process.step()` iteration (None = no user code), per class token
+PROGRAM = {'Out': [None, 'run'], 'Alt': [None, 'run'], 'Raise': [None, 'run'],
+           'Steps': [None, 'run', 's2', 's3'], 'Wait': [None, 'run', None, 's2']}
+
+
+def expected_outcome(tok, n, saved_tok=None, pos=0):
+    """what a process of class `tok` reports once terminated: ('out', {name: value}) or ('err', exception class name).
+    Resumed from a checkpoint taken after `run` (pos >= 2) of a process constructed as `saved_tok`, the outputs are the
+    persisted ones, i.e. those of `saved_tok`."""
+    if saved_tok is not None and pos >= 2:
+        tok = saved_tok
+    if tok == 'Raise':
+        return ('err', 'ValueError')
+    if tok == 'Alt':
+        return ('out', {'alt': n})
+    return ('out', {'v': n})
+
+
+def remaining_steps(tok, pos):
+    return [s for s in PROGRAM[tok][pos:] if s is not None]
+
+
+def ident_of_token(tok):
+    """line-protocol identifier token -> the identifier string sent to the launcher"""
+    kind, _, name = tok.partition('.')
+    if kind == 'd' and name in TOKENS:
+        return default_ident(TOKENS[name])
+    if kind == 'a':
+        return ALIAS_PREFIX + name
+    return UNKNOWN_IDENT
+
+
+def ref_load(loader_kind, tok):
+    """which class (token) the loader of that kind resolves the identifier token to; None = it raises ValueError"""
+    kind, _, name = tok.partition('.')
+    if loader_kind == 'custom':
+        if kind == 'a':
+            return name if name in TOKENS else None
+        if tok == 'd.Out':
+            return 'Alt'
+    return name if kind == 'd' and name in TOKENS else None
+
+
+def ref_identify(loader_kind, cls_tok):
+    return 'a.Out' if (loader_kind == 'custom' and cls_tok == 'Out') else 'd.' + cls_tok
